@@ -319,14 +319,22 @@ class World:
         FakeSimpleQueue.world = self
         bp.job_counter = itertools.count()
         bp.monotonic = lambda: self.now
+        import billiard.common as _bc
+        _bc.monotonic = bp.monotonic     # restart_state.step reads the same clock
         bp._kill = self.kill
         bp.os = FakeOS(self, _real_os)
         bp.time = FakeTime(self, _real_time)
+        from harness.hbase import cheap_einfo
+        cheap_einfo()              # cut: traceback text formatting (C12 owns it)
         del STATUS_LOG[:]
         del LOG[:]
         kw.setdefault('threads', False)
         p = bp.Pool(n, context=FakeCtx(), **kw)
         p._terminate.cancel()       # never let a Finalize run on stale state
+        if isinstance(p.lost_worker_timeout, float) and p.lost_worker_timeout == int(p.lost_worker_timeout):
+            # cut: 10.0 -> 10, clock arithmetic stays in the integers (a symbolic
+            # float caps every CrossHair verdict at "unknown")
+            p.lost_worker_timeout = int(p.lost_worker_timeout)
         self.pool = p
         self.told_others = 0
         self._real_tell_others = p._task_handler.tell_others
